@@ -4,13 +4,22 @@ import json, os
 here = os.path.dirname(os.path.dirname(os.path.abspath(__file__)))
 
 CLAIMED = {
+ "C01": ("one inductive step per state-changing call (Publish with rollover / empty batch / zero time, Delete with each structural outcome, reopen with every mix of Check/Recover/Readonly/version options, index files removed) from an arbitrary well-formed directory; after the call every read view and the directory decoded by the reference decoder equal the expected abstract log", "§4 C01, §3.5"),
+ "C02": ("offset assertions of the step harnesses: Publish returns NextOffset+n and writes back dense offsets whatever the caller supplied; delete of the tail / of everything, optional close+reopen (Check/Recover), publish again never reuses an offset; NextOffset and Stat on arbitrary directories", "§4 C02"),
  "C03": ("pure searches (index.Consume, segment.Consume) for all item arrays within the bound, and Log.Consume / the cursor loop through the real Open on arbitrary well-formed directories (symbolic offsets, times, bytes; both format versions; empty head; holes)", "§4 C03"),
  "C04": ("index.Get / segment.Get for all arrays within the bound, and Log.Get with the full error taxonomy and agreement with Consume on arbitrary well-formed directories", "§4 C04"),
  "C07": ("Segment.Check / Segment.Recover on a head segment of valid records cut at a symbolic length, with one symbolic byte changed in any field, and with a truncated / changed / extended index; all four index configurations", "§4 C07"),
  "C09": ("GetByKey / OffsetByKey / ConsumeByKey on arbitrary well-formed directories with FNV as an uninterpreted function (free collisions), present and rebuilt indexes", "§4 C09"),
  "C10": ("index.Time for all arrays within the bound, and GetByTime / OffsetByTime on arbitrary well-formed directories with non-decreasing times (equal runs across segment boundaries, empty head, rebuilt indexes)", "§4 C10"),
- "C12": ("so far: message.MinOffset (target selection of Delete) is independent of map iteration order, all permutations", "§4 C12"),
+ "C11": ("after every step harness the reference decoder checks every segment's index file against the index derived from its log file; reopen with every removal pattern of index files, read-write and read-only, all four index configurations", "§4 C11"),
+ "C12": ("Delete with arbitrary offset sets (live, dead, unassigned, negative, spanning segments) and DeleteMulti over live sets from arbitrary directories: returned messages, size, survivors, repeat, target segment; MinOffset independent of map order", "§4 C12"),
  "C13": ("real writer/readers (file and mmap) against the independent reference codec: round trip, byte-exact layout, back-to-back positions, Size, the four index layouts, Stat on arbitrary directories", "§4 C13"),
+ "C14": ("both reader kinds and the whole Log read API on V2 files with a 1- or 8-byte overwrite at a symbolic position of any field, a zero-filled tail, or a cut at a symbolic length: error or exactly the published message; no panic; allocation bound", "§4 C14"),
+ "C15": ("FindBy*/TrimBy*Multi (offset, count, size, age) on the real log opened on arbitrary directories, bounds symbolic", "§4 C15"),
+ "C16": ("FindUpdates/FindDeletes/CompactUpdates*/CompactDeletes* on the real log over symbolic 1-byte keys with tombstones; latest value per key preserved, also for repeated/alternating rounds", "§4 C16"),
+ "C17": ("Migrate (twice), EagerVersionMigrate, delete-by-rewrite with/without KeepRewriteVersion, publish with NewSegmentsVersion on single- and mixed-version directories", "§4 C17"),
+ "C19": ("open/close/failed-open/publish sequences over three handles against the exclusion matrix on a flock model; read-only session equals read-write answers, ErrReadonly, log files untouched", "§4 C19"),
+ "C20": ("Log.Backup and Backup(src,dst) into an empty directory and repeated after publish-only steps (with rollover), symbolic mtimes; backup passes Check and opens to the same log; source unchanged", "§4 C20"),
 }
 
 NOT_YET = "check not built yet in this session; to be replaced by a claim or by a final reason"
